@@ -164,15 +164,19 @@ static int checked_wait2 (int lk, int timed, int cancellable) {
 	nsync_time dl = nsync_time_no_deadline;
 	int r, t = vrt_self (), writer = lk_writer (lk);
 	if (timed) dl = vrt_abs ((int64_t) vrt_rand (6) * 700 - 700);
+	/* for the lock-step replay: thread, deadline (-1: none), cancellable, generic (the caller's own lock routines) */
+	vrt_note ("wait %d %lld %d %d", t, timed ? (long long) ts_ns (dl) : -1LL, cancellable, !(lk == LK_W || lk == LK_R));
 	if (lk == LK_W || lk == LK_R) {
 		vrt_releasing (&mu, writer);
 		if (!timed && !cancellable && vrt_rand (2)) { nsync_cv_wait (&cv, &mu); r = 0; }
 		else r = nsync_cv_wait_with_deadline (&cv, &mu, dl, cancellable ? cancel : NULL);
+		vrt_note ("ret %d %d", t, r);
 		vrt_acquired (&mu, writer);
 	} else {
 		vrt_sh_set (SH_GUN (t), 0); vrt_sh_set (SH_GLK (t), 0);
 		r = nsync_cv_wait_with_deadline_generic (&cv, &mu, lk == LK_GW ? &g_lock : &g_rlock, lk == LK_GW ? &g_unlock : &g_runlock,
 							 dl, cancellable ? cancel : NULL);
+		vrt_note ("ret %d %d", t, r);
 		if (vrt_sh_get (SH_GUN (t)) != 1 || vrt_sh_get (SH_GLK (t)) != 1)
 			vrt_fail ("C05", "generic cv wait returned %d after %ld unlock and %ld lock callbacks: the caller's lock is not held as it was on entry",
 				  r, vrt_sh_get (SH_GUN (t)), vrt_sh_get (SH_GLK (t)));
@@ -480,12 +484,12 @@ int main (void) {
 	int mode = vrt_opt ("MODE", (int) vrt_rand (5));
 	int i;
 	static char nm[12][8];
-	/* MODE 5 / 6: all the waiters of a run use the same entry point, i.e. the cv sees ONE lock identity per run (either the
-	   nsync_mu, or an opaque lock with callbacks): cv.c's wake_waiters requires "that every waiter is associated with the same
-	   mutex".  VRT_MIXLOCKS=1 mixes them (a generic-lock waiter queued behind a native one is then moved to the nsync_mu's
-	   queue with a null lock type, both generic waiters are woken at once and MU_DESIG_WAKER is never cleared: a later
-	   locker sleeps for ever); kept as an option to reproduce that observation, not used by any check. */
-	int gen = 0, mix = vrt_opt ("MIXLOCKS", 0);
+	/* MODE 5 / 6: VRT_MIXLOCKS=1 (default: half of the runs) mixes native waiters (the nsync_mu itself) and generic-interface waiters (an opaque
+	   lock with callbacks that wrap the same nsync_mu) on the cv.  Until the fourth review these modes used ONE lock identity per run, because a
+	   generic waiter queued behind a native one was moved to the nsync_mu's queue with a null lock type and MU_DESIG_WAKER was never cleared (a later
+	   locker slept for ever) -- that had been filed as a violation of an internal comment of cv.c ("every waiter is associated with the same
+	   mutex"); the public header states no such rule: it was the genuine defect F16, repaired in /repo f28c99f. */
+	int gen = 0, mix = vrt_opt ("MIXLOCKS", (int) vrt_rand (2));   /* since the F16 repair mixing native and generic waiters is part of the default runs */
 #define THREAD(name, fn, arg) (tids[n_tids++] = vrt_thread (name, fn, arg))
 	vrt_register (&mu, sizeof (mu), "mu0");
 	vrt_register (&cv, sizeof (cv), "cv0");
@@ -575,6 +579,10 @@ int main (void) {
 	}
 	if (vrt_opt ("DEBUGGER", 0)) THREAD ("dbg", debugger, NULL);
 	vrt_run ();
+	/* everybody has finished: nobody holds the mutex and nobody is queued on it or on the cv, so both words must be 0 -- a designated-waker,
+	   waiting or spinlock bit left behind would strand the NEXT locker / waiter (F15, F16 and the seeded change C06e all leave such a bit) */
+	if (vrt_peek32 (&mu.word) != 0) vrt_fail ("C02", "after every thread has finished the mutex word is 0x%x, not 0", vrt_peek32 (&mu.word));
+	if (vrt_peek32 (&cv.word) != 0) vrt_fail ("C04", "after every thread has finished the cv word is 0x%x, not 0", vrt_peek32 (&cv.word));
 	printf ("VRT-END ok\n");
 	return 0;
 }
